@@ -82,6 +82,8 @@ def _name(a: int, b: int, existing: list[str]) -> str:
         if (a // 6) % 2 and len(base.split('/')[-1]) > 1:
             return base[:-1]
         return base + ['b', ' x', '2', '-'][(a // 12) % 4]
+    if k == 3 and (a // 6) % 3 == 0:
+        return 'INBOX/' + COMPS[b % 4]          # an inferior of INBOX
     depth = 1 + (a // 6) % 3
     return '/'.join(COMPS[(b + 5 * i + a * i) % len(COMPS)]
                     for i in range(depth))
@@ -165,7 +167,8 @@ def run_case(case: dict[str, Any]) -> CaseOut:
             items = res.untagged(b'STATUS')[0].data['items']
             return items
 
-        for step in case['prog']:
+        # (every program ends with LIST "" * against the model)
+        for step in list(case['prog']) + [['list', 1, 0, 0, 0, 0]]:
             if out.failures or c.conn.done:
                 break
             op, a, b, k, d = step[:5]
@@ -186,6 +189,9 @@ def run_case(case: dict[str, Any]) -> CaseOut:
                     pool = twins
                     out.label('rename-source-is-string-prefix-of-sibling')
                 nm = pool[b % len(pool)]
+                if a % 4 == 0 and any(x.startswith('INBOX/') for x in names):
+                    nm = 'INBOX'      # its inferiors must stay where they are
+                    out.label('rename-inbox-that-has-inferiors')
             # the Maildir++ layout uses '.' for nesting in its folder names:
             # it may refuse a component with a dot, but if it accepts one it
             # must treat it as that name (and not as an alias of 'x/y')
@@ -193,7 +199,10 @@ def run_case(case: dict[str, Any]) -> CaseOut:
             if '.' in nm:
                 out.label('name-with-dot')
             if '/' in nm and _canon(nm.split('/')[0]) == 'INBOX':
-                continue       # inferiors of INBOX: optional behaviour
+                # inferiors of INBOX: pymap offers them; they are ordinary
+                # names, except that a rename of INBOX leaves them alone
+                out.label('inferior-of-inbox')
+                nm = 'INBOX/' + nm.split('/', 1)[1]
             if re.search(r'[*%\n]|[^\x00-\x7f]', nm):
                 nt = True
                 out.label('special-character-name')
